@@ -94,10 +94,7 @@ def doIns (ds : DS) (h : Hash) (n : CNode) (leaf : Option (Hash Ã— Hash)) : DS Ã
   | none => (ds, "PANIC")
   | some s' =>
     if was then ({ ds with st := s' }, "dup") else
-    let pre := match s'.cache.lookup h with
-      | none => false
-      | some n' => n.need.all fun r =>
-          (ds.st.disk.lookup r).isSome || ((s'.cache.lookup r).isSome && n'.childs.contains r)
+    let pre := storeCheck ds.st.disk s'.cache h n
     ({ ds with st := s' }, if pre then "ok" else "ok!pre")
 
 def doCommit (ds : DS) (root : Hash) (failAt : Option Nat) (observed : List Hash) (trunc : Bool) : DS Ã— String :=
